@@ -459,3 +459,121 @@ def tuple_store_roundtrip(pat, shared, usp):
         shims=['array', 'bytearray', 'struct'], quick=[dict(n=n, d=1) for n in (127, 128, 129)], thorough=[dict(n=n, d=d) for n in (126, 127, 128, 129, 130, 256) for d in (1, 256)])
 def tuple_points_family(n, d):
     _c15.points_family.__wrapped__(n, d) if hasattr(_c15.points_family, '__wrapped__') else _c15.points_family(n, d)
+
+
+# ---------------------------------------------------------------------------------------------- cmap formats 4 and 12
+import fontTools.ttLib.tables._c_m_a_p as CM
+shim_all(CM)
+instrument(CM)
+
+CMAP_SHAPES = {
+    # concrete code points; glyph ids are a + i before position k and b + (i - k) from k on (a, b symbolic): whether and where the glyph ids
+    # stop being consecutive decides format 4's segment splitting (thresholds 4 / 8) and idDelta vs idRangeOffset - all solver forks
+    'run12': list(range(0x41, 0x4D)),
+    'run5': list(range(0x41, 0x46)),
+    'two-runs': [0x20, 0x21, 0x22] + list(range(0x30, 0x3B)),
+    'scattered': [0x20, 0x41, 0x43, 0x100, 0x2000],
+    'top': [0x41, 0xFFFD, 0xFFFE],
+    'run20': list(range(0x100, 0x114)),
+    'astral': [0x41, 0x42, 0xFFFF, 0x10000, 0x10001, 0x1F600],
+}
+
+
+class _CmapFont:
+    def __init__(self, name2gid):
+        self.m = name2gid
+
+    def getReverseGlyphMap(self, rebuild=False):
+        return dict(self.m)
+
+    def getGlyphID(self, name):
+        return self.m[name]
+
+    def getGlyphName(self, gid):
+        for n, g in self.m.items():
+            if g == gid:
+                return n
+        return 'glyph%.5d' % int(gid)
+
+    def getGlyphNameMany(self, gids):
+        return [self.getGlyphName(g) for g in gids]
+
+    def getGlyphOrder(self):
+        return []
+
+
+def spec_cmap4(d, c):
+    """glyph id for character c from a format 4 subtable, written from the OpenType spec"""
+    segX2 = int(be_uint(d[6:8]))
+    n = segX2 // 2
+    endp, startp = 14, 14 + segX2 + 2
+    deltap, rop = startp + segX2, startp + 2 * segX2
+    for i in range(n):
+        end = int(be_uint(d[endp + 2 * i:endp + 2 * i + 2]))
+        if end >= c:
+            start = int(be_uint(d[startp + 2 * i:startp + 2 * i + 2]))
+            if start > c:
+                return 0
+            delta = be_uint(d[deltap + 2 * i:deltap + 2 * i + 2])
+            ro = int(be_uint(d[rop + 2 * i:rop + 2 * i + 2]))
+            if ro == 0:
+                return (c + delta) & 0xFFFF
+            p = rop + 2 * i + ro + 2 * (c - start)
+            g = be_uint(d[p:p + 2])
+            return ite(eq(g, 0), 0, (g + delta) & 0xFFFF)
+    return 0
+
+
+def spec_cmap12(d, c):
+    ngroups = int(be_uint(d[12:16]))
+    for i in range(ngroups):
+        o = 16 + 12 * i
+        s, e = int(be_uint(d[o:o + 4])), int(be_uint(d[o + 4:o + 8]))
+        if s <= c <= e:
+            return be_uint(d[o + 8:o + 12]) + (c - s)
+    return 0
+
+
+@kernel('C02', funcs=['ttLib/tables/_c_m_a_p.py:cmap_format_4.compile', 'ttLib/tables/_c_m_a_p.py:splitRange', 'ttLib/tables/_c_m_a_p.py:cmap_format_4.decompile',
+                      'ttLib/tables/_c_m_a_p.py:cmap_format_12_or_13.compile', 'ttLib/tables/_c_m_a_p.py:cmap_format_12_or_13.decompile', 'ttLib/tables/_c_m_a_p.py:_make_map',
+                      'ttLib/ttFont.py:getSearchRange'],
+        bounds='cmap subtables format 4 and 12: concrete code-point sets from 7 shapes (runs of 5/12/20, two runs, scattered, next to 0xFFFF, beyond the BMP) x '
+               'SYMBOLIC glyph ids a + i (i < k) and b + (i - k) (i >= k), a, b in [1, 60000] (b either continues the a-run or is clear of it), k from the parameter: the character -> glyph '
+               'mapping read back by a reader written from the spec (segment search, idDelta mod 65536, idRangeOffset indexing; sequential groups) equals the '
+               'input for every code in the map and gives "missing" for the neighbouring codes; fontTools\' own decompile returns the same map; format 4 header '
+               'search fields per spec',
+        shims=['struct', 'array'],
+        quick=[dict(fmt=4, shape='run12', k=k) for k in (0, 3, 6)] + [dict(fmt=4, shape='run5', k=2), dict(fmt=4, shape='two-runs', k=1), dict(fmt=4, shape='two-runs', k=5), dict(fmt=4, shape='scattered', k=2), dict(fmt=4, shape='top', k=1),
+                                                                     dict(fmt=12, shape='astral', k=3), dict(fmt=12, shape='run5', k=2)],
+        thorough=[dict(fmt=4, shape=s, k=k) for s in ('run12', 'run5', 'two-runs', 'scattered', 'top', 'run20') for k in (0, 1, 2, 3, 5, 6, 9, 11) if k < len(CMAP_SHAPES[s])]
+        + [dict(fmt=12, shape=s, k=k) for s in ('astral', 'run5', 'two-runs', 'scattered') for k in (0, 1, 2, 3)], conc_cap=80, max_paths=100000)
+def cmap_roundtrip(fmt, shape, k):
+    codes = CMAP_SHAPES[shape]
+    a = V.int('a', 1, 60000)
+    b = V.int('b', 1, 60000)
+    assume(disj([eq(b, a + k), le(a + 40, b), le(b + 40, a)]))      # b continues the a-run exactly, or lies clear of it
+    gids = [a + i if i < k else b + (i - k) for i in range(len(codes))]
+    names = ['n%d' % i for i in range(len(codes))]
+    font = _CmapFont(dict(zip(names, gids)))
+    st = CM.CmapSubtable.newSubtable(fmt)
+    st.platformID, st.platEncID, st.language = 3, (10 if fmt == 12 else 1), 0
+    st.cmap = dict(zip(codes, names))
+    data = st.compile(font)
+    observe('length', len(tobytes(data)))
+    d = blist(data)
+    spec = spec_cmap4 if fmt == 4 else spec_cmap12
+    ob('spec:length-field', eq(be_uint(d[2:4]) if fmt == 4 else be_uint(d[4:8]), len(d)))
+    ob('spec:mapped-codes', conj([eq(spec(d, c), g) for c, g in zip(codes, gids)]))
+    near = sorted({c + dd for c in codes for dd in (-1, 1)} - set(codes))
+    near = [c for c in near if 0 <= c <= (0xFFFE if fmt == 4 else 0x10FFFF)]
+    ob('spec:unmapped-neighbours-are-missing', conj([eq(spec(d, c), 0) for c in near]))
+    if fmt == 4:
+        n = int(be_uint(d[6:8])) // 2
+        e = 0
+        while (1 << (e + 1)) <= n:
+            e += 1
+        ob('spec:search-fields', conj([eq(be_uint(d[8:10]), 2 * (1 << e)), eq(be_uint(d[10:12]), e), eq(be_uint(d[12:14]), 2 * n - 2 * (1 << e))]))
+        ob('spec:last-segment-is-0xFFFF', eq(be_uint(d[14 + 2 * (n - 1):14 + 2 * n]), 0xFFFF))
+    st2 = CM.CmapSubtable.newSubtable(fmt)
+    st2.decompile(data, font)
+    ob('decompile:same-map', sorted(st2.cmap) == sorted(codes) and all(st2.cmap[c] == nm for c, nm in zip(codes, names)))
